@@ -134,9 +134,13 @@ const SENT_R1: u16 = 0x5A5A;
 const SENT_PC: u16 = 0x0055;
 
 fn run(text: &str, command: Option<String>, stdin: &[u8], fuel: u64) -> lacebox::Session {
+    run_mode(text, command, stdin, fuel, true)
+}
+
+fn run_mode(text: &str, command: Option<String>, stdin: &[u8], fuel: u64, minimal: bool) -> lacebox::Session {
     lacebox::run_session(
         Load::Source { text: text.to_string(), debugger: Some(command) },
-        RunSpec { stack: false, minimal: true, fuel, input: stdin.to_vec() },
+        RunSpec { stack: false, minimal, fuel, input: stdin.to_vec() },
     )
 }
 
@@ -185,11 +189,30 @@ fn judge_tokens(tokens: &[String], with_break: bool) -> Obs {
     }
     lines.push("exit".into());
     let script = lines.join("\n");
-    let s = run(&text, Some(script), &[], 20 * lines.len() as u64 + 100);
+    let s = run(&text, Some(script.clone()), &[], 20 * lines.len() as u64 + 100);
     let Some(out) = &s.outcome else {
         obs.set_fail("C14:session-failed", "token program did not load");
         return obs;
     };
+    // the same script in the normal (non-minimal) output mode, where errors are rendered in full:
+    // the mode changes what is printed, never what a line means - no panic, same final machine
+    let s2 = run_mode(&text, Some(script), &[], 20 * lines.len() as u64 + 100, false);
+    if let (Some(o2), false) = (&s2.outcome, out.stop.is_panic()) {
+        if let Stop::Panic(msg, loc) = &o2.stop {
+            let err2 = String::from_utf8_lossy(&lacebox::strip_sgr(&o2.stderr)).to_string();
+            let last = err2.lines().rev().find(|l| l.trim_start().starts_with("[V") || l.trim_start().starts_with("[G") || l.trim_start().starts_with("[B")).unwrap_or("").trim().to_string();
+            let k: Option<usize> = last.trim_matches(|c| c == '[' || c == ']').get(1..).and_then(|x| x.parse().ok());
+            obs.set_fail(
+                format!("C14:{}", super::c01::panic_sig(msg, loc)),
+                format!("in the normal output mode the debugger panicked: {msg} at {loc}; last marker {last} (token {:?})", k.and_then(|k| tokens.get(k))),
+            );
+            return obs;
+        }
+        if o2.stop != out.stop || o2.fin != out.fin {
+            obs.set_fail("C14:output-mode-changes-meaning", format!("the same script ends differently in the normal output mode: {:?} vs {:?} (minimal), final machine states {}", o2.stop, out.stop, if o2.fin == out.fin { "equal" } else { "differ" }));
+            return obs;
+        }
+    }
     let err = String::from_utf8_lossy(&out.stderr).to_string();
     if let Stop::Panic(msg, loc) = &out.stop {
         // find the token that was being processed: the last marker seen
@@ -337,6 +360,13 @@ fn long_token() -> impl Strategy<Value = String> {
         // same low byte (U+0161 for 'a', U+3042 for 'B', U+0130 for '0', ...): never an integer
         2 => (prop::sample::select(vec!["x1a", "xBEEF", "0x7f", "#12", "-#3", "b101", "o17", "x-1c", "^2", "^-x1", "ag+1", "xg-0x2", "r1", "42", "0b11", "+xff"]), any::<u16>(), 1u32..0x40)
             .prop_map(|(t, at, k)| collide(t, at, k)),
+        // long tokens with a multi-byte character around byte offsets 32, 64, 128, 256 (where
+        // something that shortens, pads or slices by bytes would cut)
+        2 => (prop::sample::select(vec![32usize, 64, 128, 256]), 0usize..5, prop::sample::select(vec!['1', 'a', 'x', 'g', '0']), prop::sample::select(vec!['é', '日', '😀']), prop::sample::select(vec!["", "#", "x", "-", "^", "ag+"]), 0usize..4)
+            .prop_map(|(at, d, pad, ch, prefix, tail)| {
+                let n = (at + d).saturating_sub(2 + prefix.len());
+                format!("{prefix}{}{ch}{}", std::iter::repeat(pad).take(n).collect::<String>(), std::iter::repeat(pad).take(tail).collect::<String>())
+            }),
     ]
 }
 
@@ -773,7 +803,7 @@ impl Prop for C14 {
     }
     fn rule(&self) -> &'static str {
         "(a) ALL argument strings of length <= 4 (quick) / <= 5 (thorough) over the alphabet {+ - # x o b 0 1 8 a g ^ r _}, each used as `move r1 <t>` (value) and `goto <t>` (location), and up to length 3 also as `break add <t>`, against a program at origin 0 that defines 35 labels colliding with tricky spellings (xg, b8, o, x, r8, R00, _, ...); plus generated longer tokens: numbers at the i16/u16/i32 edges (and beyond 2^32) in every radix and sign position with leading zeros, label+-offset, ^offset, multi-byte characters. \
-         Oracle RefCmd (doc comment of the integer parser, NaiveType table, help.txt): value accepted <=> documented integer in [-32768, 65535], R1 = v mod 2^16; location => PC / breakpoint list equals the resolved address; everything else => an error is reported and nothing changes; never a panic. \
+         Oracle RefCmd (doc comment of the integer parser, NaiveType table, help.txt): value accepted <=> documented integer in [-32768, 65535], R1 = v mod 2^16; location => PC / breakpoint list equals the resolved address; everything else => an error is reported and nothing changes; never a panic; every batch is run a second time in the normal (non-minimal) output mode, where errors are rendered in full: no panic, same final machine state. Generated tokens include long ones with a multi-byte character around byte offsets 32 / 64 / 128 / 256. \
          (b) every command name, alias and listed misspelling (one- and two-word forms) in 3 random letter cases: alias => transcript, output, exit and final state identical to the canonical name in a fixed scenario; misspelling => CommandError and no effect. `print` without argument = `print ^`. \
          (c) generated scripts of 1-8 commands delivered through --command, through stdin, or split at every point, with `;` or newline as separator, empty commands and surrounding blanks: stdout, stderr, exit status and final state identical to the plain delivery (in-process through the real CommandReader, plus a sample through the real binary with a pipe as stdin, plus a sample typed key by key at a pseudo-terminal - one command per line, `;`-joined on a line, or with a `;` left at the end of a line - where the debugger's output with the prompt drawing removed must equal that of the plain delivery). \
          (d) scripts on standard input in which one line contains bytes that are not UTF-8 (lone / truncated / surrogate sequences at the start, in the middle or at the end of a command; a character of the command, or a `;` / newline joining two commands, spelled as an over-long 2-, 3- or 4-byte sequence): no panic, and the session equals the one with an invalid textual line in its place. \
